@@ -79,7 +79,7 @@ class Orchestrator:
     # ------------------------------------------------------------------
     def machinery_hash(self):
         h = hashlib.sha256()
-        for sub in ('engines', 'driver/src', 'corpus', 'bin', 'fixtures', 'witness'):
+        for sub in ('engines', 'driver/src', 'corpus', 'probes', 'bin', 'fixtures'):
             root = os.path.join(self.here, sub)
             if not os.path.isdir(root):
                 continue
